@@ -289,3 +289,113 @@ pub fn pairs(r: &mut Rng, n: usize, count: usize) -> Vec<(B, B)> {
     v.truncate(count.max(25));
     v
 }
+
+// ---------------------------------------------------------------------------------------------
+// small unsigned big-number helpers on little-endian byte vectors, used ONLY to construct
+// interesting operands (products near 2^W, exact multiples +-1, exact powers); never as an oracle.
+
+pub fn trim(mut a: B) -> B {
+    while a.last() == Some(&0) {
+        a.pop();
+    }
+    a
+}
+pub fn fit(a: &B, n: usize) -> B {
+    let mut v = a.clone();
+    v.resize(n, 0);
+    v
+}
+pub fn ucmp(a: &B, b: &B) -> std::cmp::Ordering {
+    let (a, b) = (trim(a.clone()), trim(b.clone()));
+    if a.len() != b.len() {
+        return a.len().cmp(&b.len());
+    }
+    for i in (0..a.len()).rev() {
+        if a[i] != b[i] {
+            return a[i].cmp(&b[i]);
+        }
+    }
+    std::cmp::Ordering::Equal
+}
+pub fn uadd(a: &B, b: &B) -> B {
+    let n = a.len().max(b.len());
+    let mut v = Vec::with_capacity(n + 1);
+    let mut c = 0u16;
+    for i in 0..n {
+        let s = *a.get(i).unwrap_or(&0) as u16 + *b.get(i).unwrap_or(&0) as u16 + c;
+        v.push(s as u8);
+        c = s >> 8;
+    }
+    if c > 0 {
+        v.push(c as u8);
+    }
+    v
+}
+/// a - b for a >= b
+pub fn usub(a: &B, b: &B) -> B {
+    let mut v = Vec::with_capacity(a.len());
+    let mut br = 0i16;
+    for i in 0..a.len() {
+        let mut d = a[i] as i16 - *b.get(i).unwrap_or(&0) as i16 - br;
+        if d < 0 {
+            d += 256;
+            br = 1;
+        } else {
+            br = 0;
+        }
+        v.push(d as u8);
+    }
+    v
+}
+pub fn umul(a: &B, b: &B) -> B {
+    let mut v = vec![0u8; a.len() + b.len()];
+    for i in 0..a.len() {
+        let mut c = 0u32;
+        for j in 0..b.len() {
+            let t = v[i + j] as u32 + a[i] as u32 * b[j] as u32 + c;
+            v[i + j] = t as u8;
+            c = t >> 8;
+        }
+        let mut k = i + b.len();
+        while c > 0 {
+            let t = v[k] as u32 + c;
+            v[k] = t as u8;
+            c = t >> 8;
+            k += 1;
+        }
+    }
+    v
+}
+/// (a div b, a mod b), b != 0; bitwise shift-subtract
+pub fn udivrem(a: &B, b: &B) -> (B, B) {
+    let nb = a.len() * 8;
+    let mut q = vec![0u8; a.len()];
+    let mut r: B = vec![0u8; b.len() + 1];
+    for i in (0..nb).rev() {
+        // r = r*2 + bit
+        let mut c = (a[i / 8] >> (i % 8)) & 1;
+        for x in r.iter_mut() {
+            let t = (*x >> 7) & 1;
+            *x = (*x << 1) | c;
+            c = t;
+        }
+        if ucmp(&r, b) != std::cmp::Ordering::Less {
+            r = usub(&r, b);
+            q[i / 8] |= 1 << (i % 8);
+        }
+    }
+    (q, r)
+}
+/// b^k truncated to n bytes, and whether it overflowed n bytes
+pub fn upow(b: &B, k: u32, n: usize) -> (B, bool) {
+    let mut acc = small(n, 1);
+    let mut ov = false;
+    for _ in 0..k {
+        let p = umul(&acc, b);
+        if p[n..].iter().any(|x| *x != 0) {
+            ov = true;
+        }
+        acc = p[..n].to_vec();
+    }
+    (acc, ov)
+}
